@@ -30,6 +30,8 @@ def run(seed=0):
                 return to_sympy(d[1])
             if d[0] == "root":
                 return to_sympy(d[1]) ** sp.Rational(1, d[2])
+            if d[0] == "fn" and d[1] == "pow":
+                return to_sympy(d[2]) ** to_sympy(d[3])
             if d[0] == "fn":
                 if d[1] == "const:pi":
                     return sp.pi
@@ -90,6 +92,57 @@ def run(seed=0):
         ((x + y) ** 2 - x * x - y * y, False),
     ]
     out.append(("zero test: 5 identities discharged, 3 non-identities refuted", all(ring.iszero(e) == want for e, want in ids)))
+    # 2b. power atoms (symbolic real exponents): every normalisation rule of ring.powatom, of
+    # models.powatom_canonical and models.unify_pows is cross-checked against sympy (values and derivatives at
+    # random rational points); identities between powers discharge, non-identities are refuted
+    from . import models
+
+    e, f = ring.var("se"), ring.var("sf")
+    se, sf = sp.symbols("se sf", real=True)
+    env_sp[ring.gen_of(e)] = se
+    env_sp[ring.gen_of(f)] = sf
+    for v in (x, y, z):
+        oracle.assume(v, ">")
+    half, third = Fraction(1, 2), Fraction(1, 3)
+    rules = [
+        ("pw(p,a)*pw(p,c-a)", lambda: (1 + x * x) ** e * (1 + x * x) ** (Fraction(3, 2) - e), (1 + sx**2) ** se * (1 + sx**2) ** (sp.Rational(3, 2) - se)),
+        ("pw(p,a+k)", lambda: (x + y) ** e + (x + y) ** (e - 2), (sx + sy) ** se + (sx + sy) ** (se - 2)),
+        ("pw(p,-k a)", lambda: (x + 2) ** (e * f) * 3 + (x + 2) ** (-2 * e * f), 3 * (sx + 2) ** (se * sf) + (sx + 2) ** (-2 * se * sf)),
+        ("const-base", lambda: 3 ** (1 - e) / (2 * e) * ((x + y + z) ** e - 3**e), 3 ** (1 - se) / (2 * se) * ((sx + sy + sz) ** se - 3**se)),
+        ("pw(root(p,n)^m,a)", lambda: ((1 + x * y) ** half) ** e + ((1 + x * y) ** Fraction(-2, 3)) ** (e + 1), sp.sqrt(1 + sx * sy) ** se + ((1 + sx * sy) ** sp.Rational(-2, 3)) ** (se + 1)),
+        ("pw(pw(p,a)^m,b)", lambda: (((1 + x) ** e) ** 2) ** (f / 3), (((1 + sx) ** se) ** 2) ** (sf / 3)),
+        ("product rule", lambda: (2 * x * y**2 / z**half) ** e + (x / (x * y * z) ** third) ** (-f / 2), (2 * sx * sy**2 / sp.sqrt(sz)) ** se + (sx / (sx * sy * sz) ** sp.Rational(1, 3)) ** (-sf / 2)),
+        ("root of a generator power", lambda: (y / models._nthroot_kernel(x**3, 2)) ** e, (sy / sp.sqrt(sx**3)) ** se),
+        ("mixed scales", lambda: x ** (e / 2) + 1 / x ** (e / 3) + (x**half) ** (e / 5), sx ** (se / 2) + 1 / sx ** (se / 3) + sp.sqrt(sx) ** (se / 5)),
+    ]
+    okP = True
+    for canonical in (False, True):
+        for nm, mk, ref in rules:
+            with models.canonical_roots() if canonical else models.contextlib.nullcontext():
+                val = mk()
+                val2 = models.unify_pows(val)
+            for expr, sref in ((val, ref), (val2, ref), (ring.D(val, x), sp.diff(ref, sx)), (ring.D(val2, e), sp.diff(ref, se))):
+                pt = {sx: sp.Rational(rng.randint(2, 9), 7), sy: sp.Rational(rng.randint(2, 9), 5), sz: sp.Rational(rng.randint(2, 9), 11), se: sp.Rational(rng.randint(-9, 9), 4) + sp.Rational(1, 8), sf: sp.Rational(rng.randint(-7, 7), 3) + sp.Rational(1, 7)}
+                envf = {ring.gen_of(g): float(pt[env_sp[ring.gen_of(g)]]) for g in (x, y, z, e, f)}
+                want = float(sp.N(sref.subs(pt), 30))
+                if abs(ring.tofloat(expr, envf) - want) > 1e-9 * (1 + abs(want)) or abs(float(sp.N(to_sympy(expr).subs(pt), 30)) - want) > 1e-9 * (1 + abs(want)):
+                    okP = False
+    out.append(("power atoms: 9 normalisation rules (kernel, canonical product rule, unify_pows) == sympy, values and D (72)", okP))
+    with models.canonical_roots():
+        pid = [
+            ((1 + x) ** e * (1 + x) ** (2 - e) - (1 + x) ** 2, True),
+            (ring.D(x**e, x) - e * x ** (e - 1), True),
+            (ring.D((x + y) ** (e * f), e) - f * ring.fn("log", x + y) * (x + y) ** (e * f), True),
+            ((x * y) ** e - x**e * y**e, True),
+            ((x**half * y**half) ** (-e * f) - (x * y) ** (-e * f / 2), True),
+            (models.unify_pows(x ** (e / 2) * x ** (e / 3) - x ** (5 * e / 6)), True),
+            (ring.evalat(ring.D(2 / e**2 * (x**e - 1), x), {x: 1}) - 2 / e, True),
+            ((x + y) ** e - x**e - y**e, False),
+            (x ** (e - 1) - x**e, False),
+            (models.unify_pows(x ** (e / 2) - x ** (e / 3)), False),
+            ((x * y) ** e - x**e * y**f, False),
+        ]
+    out.append(("power atoms: 7 identities discharged, 4 non-identities refuted", all(ring.iszero(q) == want for q, want in pid)))
     # 3. shims against real numpy on random float data
     r = np.random.RandomState(seed)
     ok = True
